@@ -111,7 +111,10 @@ def run(tier):
     pick = nums if tier == "thorough" else nums
     cmds, meta = [], []
     # all pairs would be ~160k per op in quick: sample the second operand
-    seconds = pick if tier == "thorough" else [pick[i] for i in range(0, len(pick), 7)]
+    # ... but always keep the core boundary values in both representations (zero, +-1, +-2, 2^63 and its
+    # neighbours, 2^64-1): a signed zero against INT64_MIN is the kind of pair a stride would drop
+    core = {0, 1, 2, M64 - 1, M64 - 2, H63, H63 - 1, H63 + 1, H63 - 2, H63 + 2}
+    seconds = pick if tier == "thorough" else sorted(set([pick[i] for i in range(0, len(pick), 7)] + [x for x in pick if x[0] in core]))
     for op in OPS + ["lt"]:
         for (ua, sa) in pick:
             for (ub, sb) in seconds:
